@@ -2,6 +2,7 @@ package main
 
 import (
 	"fmt"
+	"strings"
 
 	"golang.org/x/tools/go/ssa"
 )
@@ -115,6 +116,7 @@ func (e *Enc) enterLoop(fr *Frame, li *loopInfo, st *State) *State {
 	// 1. establish
 	for i, inv := range invs {
 		env := e.envFor(fr, st)
+		env.loop = li
 		g, err := env.evalBool(inv.E)
 		if err != nil {
 			e.unsupportedf("%s invariant %d: %v", loopName, i+1, err)
@@ -145,8 +147,12 @@ func (e *Enc) enterLoop(fr *Frame, li *loopInfo, st *State) *State {
 	written := e.endDry(fr, d)
 	// 3. havoc
 	h := st.clone()
+	loopFrame := spec != nil && spec.HasModifies
 	nonLocal := e.dryNonLocal
 	for _, k := range sortedKeys(written) {
+		if loopFrame && !strings.HasPrefix(k, "RV|") {
+			continue // declared loop frame: only the declared targets are havocked (below)
+		}
 		if _, ok := e.heapSort[k]; ok {
 			before := e.heapGet(st, k, e.heapSort[k])
 			h.heap[k] = e.fresh(k, e.heapSort[k])
@@ -165,6 +171,7 @@ func (e *Enc) enterLoop(fr *Frame, li *loopInfo, st *State) *State {
 		e.havocUnknown(h)
 	}
 	e.bumpAlloc(h)
+	li.written = written
 	for _, in := range li.header.Instrs {
 		phi, ok := in.(*ssa.Phi)
 		if !ok {
@@ -176,9 +183,21 @@ func (e *Enc) enterLoop(fr *Frame, li *loopInfo, st *State) *State {
 		}
 		fr.vals[phi] = e.freshVal(h, fr.prefix+phi.Name()+"!"+phi.Comment, phi.Type())
 	}
+	if loopFrame {
+		// targets are evaluated at the header of the arbitrary iteration (loop-carried variables have their header values)
+		for i, m := range spec.Modifies {
+			env := e.envFor(fr, h)
+			env.loop = li
+			if err := env.havocTarget(h, m); err != nil {
+				e.unsupportedf("%s modifies %s: %v", loopName, spec.ModSrc[i], err)
+			}
+		}
+	}
+	li.headerState = h.clone()
 	// 4. assume invariants
 	for i, inv := range invs {
 		env := e.envFor(fr, h)
+		env.loop = li
 		g, err := env.evalBool(inv.E)
 		if err != nil {
 			e.unsupportedf("%s invariant %d: %v", loopName, i+1, err)
@@ -204,12 +223,28 @@ func (e *Enc) backEdgeObligations(fr *Frame, b *ssa.BasicBlock, st *State, si in
 	s := b.Succs[si]
 	li := fr.loops[s.Index]
 	spec := e.loopSpecFor(fr, li)
-	if spec == nil || len(spec.Invariants) == 0 {
+	if spec == nil || (len(spec.Invariants) == 0 && !spec.HasModifies) {
 		return
 	}
 	cond := e.edgeCond(fr, b, st, si)
 	if cond == "false" {
 		return
+	}
+	if spec.HasModifies && li.headerState != nil && e.dry == 0 {
+		// loop frame: whatever the body wrote outside the declared targets is unchanged w.r.t. the header state
+		// (objects allocated during this iteration are exempt)
+		lname := fmt.Sprintf("loop%d", li.ordinal)
+		if fr.parent != nil {
+			lname = shortFn(fr.fn) + "/" + lname
+		}
+		fenv := e.envFor(fr, li.headerState)
+		fenv.loop = li
+		fp, err := fenv.footprintOfTargets(spec.Modifies, nil)
+		if err != nil {
+			e.unsupportedf("%s modifies: %v", lname, err)
+		} else if !fp.all {
+			e.frameObligations(li.written, li.headerState, st, fp, lname+".frame:", lname+" modifies "+strings.Join(spec.ModSrc, ", "), cond)
+		}
 	}
 	// bind phis to the back-edge operands
 	saved := map[*ssa.Phi]*Val{}
@@ -266,6 +301,7 @@ func (e *Enc) backEdgeObligations(fr *Frame, b *ssa.BasicBlock, st *State, si in
 	st2.reach = cond
 	for i, inv := range spec.Invariants {
 		env := e.envFor(fr, st2)
+		env.loop = li
 		g, err := env.evalBool(inv.E)
 		if err != nil {
 			e.unsupportedf("%s invariant %d: %v", loopName, i+1, err)
@@ -277,6 +313,45 @@ func (e *Enc) backEdgeObligations(fr *Frame, b *ssa.BasicBlock, st *State, si in
 	for phi, v := range saved {
 		fr.vals[phi] = v
 	}
+}
+
+// visitedSet: the ghost set of keys already yielded by the map range that drives loop li of env.fr (nil: the loop of
+// the invariant being evaluated). Usable in loop invariants as `visited` / `visited(N)` (N = loop ordinal).
+func (env *Env) visitedSet(ordinal int) (*Val, error) {
+	fr := env.fr
+	if fr == nil {
+		return nil, fmt.Errorf("visited is only available in loop invariants")
+	}
+	li := env.loop
+	if ordinal > 0 {
+		li = nil
+		for _, l := range fr.loops {
+			if l.ordinal == ordinal {
+				li = l
+			}
+		}
+	}
+	if li == nil {
+		return nil, fmt.Errorf("visited: no such loop")
+	}
+	for _, in := range li.header.Instrs {
+		nx, ok := in.(*ssa.Next)
+		if !ok || nx.IsString {
+			continue
+		}
+		rng, ok := nx.Iter.(*ssa.Range)
+		if !ok {
+			continue
+		}
+		ksort, _, _, _, ok := env.e.mapKeys(rng.X.Type())
+		if !ok {
+			return nil, fmt.Errorf("visited: map with composite key")
+		}
+		sort := "(Array " + ksort + " Bool)"
+		key := fmt.Sprintf("RV|%s%s", fr.prefix, rng.Name())
+		return &Val{L: []Sc{{env.e.heapGet(env.st, key, sort), sort}}}, nil
+	}
+	return nil, fmt.Errorf("visited: loop %d does not range over a map", li.ordinal)
 }
 
 // refIndexedKey: heap components indexed by object reference at the first level.
